@@ -9,6 +9,8 @@ R-C13-3  random_not_zero returns only through the exit of a loop whose condition
 R-C13-4  no role value is a constant or a public value (every alternative contains a draw)
 R-C13-5  every generator a draw is taken from is built with the caller's RNG mixed in (else the drawn nonces, the two final masks
          included, do not vary with the caller's randomness); shared with R-C14-1
+R-C13-6  draws made while the transcript stands still come from one generator: between two draws the generator is rebuilt only if an
+         absorption or a challenge lies between them (else the two differ only by what the external RNG returns)
 """
 from bpsa.facts import callee_decl, callee_name
 from bpsa.normal import canon
@@ -25,11 +27,40 @@ RULE_TEXT = 'one obligation per role and clause; non-trivial = decided from the 
 EXPECTED = {'A': b'alpha', 'L': b'dL', 'R': b'dR', 'A1': b'd', 'B': b'eta'}
 
 
+def one_stream_per_state(ctx, p):
+    """R-C13-6: nonces drawn while the transcript stands still come from ONE generator that each draw advances.  If the generator is
+    rebuilt between two draws with no absorption or challenge in between, the two generators are built from the same transcript state and
+    the same witness and differ only in the bytes taken from the external RNG: with an external RNG that repeats itself the two nonces
+    are equal (r == s, d == eta, d_L == d_R).  In the event trace: between two draws there is no `finalize` unless a transcript event
+    (append / challenge) lies between them as well."""
+    rep = ctx.rep
+    evs = wire.entry_trace(ctx, p)
+    last_draw = None
+    fin_since = False
+    changed_since = False
+    bad = []
+    n = 0
+    for e in evs:
+        if e.kind in ('append', 'append_u64', 'challenge'):
+            changed_since = True
+        elif e.kind == 'finalize':
+            fin_since = True
+        elif e.kind == 'draw':
+            n += 1
+            if last_draw is not None and fin_since and not changed_since:
+                bad.append(e)
+            last_draw, fin_since, changed_since = e, False, False
+    rep.check(not bad, 'R-C13-6', 'R-C13-6/one-stream-per-state', 'between two draws the RNG is rebuilt only when the transcript has changed (%d draws)' % n,
+              'the RNG is rebuilt between two draws although the transcript has not changed in between (%d place(s)): the two draws differ only by what the external RNG returns' % len(bad),
+              ctx.where(bad[0].body, bad[0].bb) if bad else ctx.where(p))
+
+
 def run(ctx):
     rep = ctx.rep
     p = ctx.fn('RangeProof::<P>::prove_with_rng', 'R-C13-1')
     if p is None:
         return
+    one_stream_per_state(ctx, p)
     roles, samplers = R.discover(ctx, p, 'R-C13-1')
     rep.floor('R-C13-1', 'blinding roles discovered from sinks', len(roles), 5)
     # name the roles by the proof field their point ends up in
